@@ -96,6 +96,40 @@ def str_guarded(repo, fn, g, cmp_node):
     return all(o in proven for o in ops if o) and all(ops)
 
 
+def _only_routes(repo, cg, fn, cmp_node):
+    """`if ... X.f != Y.f: <arm> else: <arm that calls a differ on (X, Y)>`: Python equality of the parts decides the route only."""
+    if not (isinstance(cmp_node, ast.Compare) and len(cmp_node.ops) == 1 and isinstance(cmp_node.ops[0], (ast.Eq, ast.NotEq))):
+        return None
+    def root(e):
+        while isinstance(e, (ast.Attribute, ast.Subscript)):
+            e = e.value
+        return e.id if isinstance(e, ast.Name) else None
+    l, r = cmp_node.left, cmp_node.comparators[0]
+    if isinstance(l, ast.Name) or isinstance(r, ast.Name):
+        return None         # the values themselves, not parts of enclosing objects
+    rl, rr = root(l), root(r)
+    if not rl or not rr or rl == rr:
+        return None
+    p = repo.parent(cmp_node)
+    while p is not None and not isinstance(p, ast.stmt):
+        if isinstance(p, ast.BoolOp) and isinstance(p.op, ast.Or) or isinstance(p, ast.UnaryOp):
+            return None
+        p = repo.parent(p)
+    if not isinstance(p, ast.If) or not any(x is cmp_node for x in ast.walk(p.test)):
+        return None
+    equal_arm = p.orelse if isinstance(cmp_node.ops[0], ast.NotEq) else p.body
+    if not equal_arm and isinstance(cmp_node.ops[0], ast.NotEq):
+        return None
+    for st in equal_arm:
+        for c in ast.walk(st):
+            if isinstance(c, ast.Call) and len(c.args) >= 2 and isinstance(c.args[0], ast.Name) and isinstance(c.args[1], ast.Name) and \
+                    (c.args[0].id, c.args[1].id) == (rl, rr):
+                ts = cg.resolve(c.func, fn)
+                if any(t[0] == 'func' and t[1].startswith('nbdime.diffing.') for t in ts) or (isinstance(c.func, ast.Name) and c.func.id in ('diff', 'diffit')):
+                    return repo.norm(c)
+    return None
+
+
 def _run_base(ctx):
     repo, cg = ctx.repo, ctx.cg
     ctx.rule('R02.1', 'equality that suppresses diff output must discriminate JSON types: value comparisons of the two documents are str-guarded '
@@ -132,6 +166,10 @@ def _run_base(ctx):
                 reg = [k for tk, fs in cg.tables.items() for k in [tk] if ('func', fid) in fs]
                 paths = _registered_paths(repo, fid)
                 schema_exact = bool(paths) and paths <= SCHEMA_EXACT_PATHS
+            routing = _only_routes(repo, cg, fn, n)
+            if routing and not (exact or schema_exact):
+                ctx.inst('R02.1', fid, repo.norm(n), True, 'the comparison only chooses between two differs: the arm taken when the values compare equal still diffs the enclosing objects (%s)' % routing, n)
+                continue
             ok = exact or schema_exact
             ctx.inst('R02.1', fid, repo.norm(n), ok,
                      ('both operands are proven str: equality is exact' if exact else 'differ registered only for %s, whose values are str/list of str by schema' % sorted(_registered_paths(repo, fid))) if ok else
@@ -464,3 +502,7 @@ def run(ctx):
     tables_do_not_insert_on_lookup(ctx, 'R02.10')
     from ..trim import check_trims
     check_trims(ctx, 'R02.11', ['nbdime.diffing.'])
+
+
+from .extra import with_extra  # noqa: E402
+run = with_extra('C02', run)
